@@ -439,11 +439,20 @@ where
                 } else {
                     it.set_instrument_mode(im(*mode));
                 }
+                let bulk = (idx + probes.len()) % 3 == 0;
+                let mut body = vec![];
                 for p in probes {
                     for o in probe_ops(*p) {
                         ops.borrow_mut().push(format!("i~{idx}~{}", crate::optok::tok_of(&o)));
-                        it.inject(o);
+                        if bulk {
+                            body.push(o);
+                        } else {
+                            it.inject(o);
+                        }
                     }
+                }
+                if bulk {
+                    it.inject_all(&body);
                 }
             }
             Step::EmptyAlt { idx } => {
@@ -532,11 +541,21 @@ fn apply_modifier<'a>(m: &mut Module<'a>, fid: FunctionID, plan: &[Step], last: 
                 } else {
                     fm.set_instrument_mode_at(im(*mode), loc);
                 }
+                // one step in three hands the whole body over at once (`inject_all`): the same injections, by the trait's bulk entry point
+                let bulk = (idx + probes.len()) % 3 == 0;
+                let mut body = vec![];
                 for p in probes {
                     for o in probe_ops(*p) {
                         ops.borrow_mut().push(format!("i~{idx}~{}", crate::optok::tok_of(&o)));
-                        fm.inject(o);
+                        if bulk {
+                            body.push(o);
+                        } else {
+                            fm.inject(o);
+                        }
                     }
+                }
+                if bulk {
+                    fm.inject_all(&body);
                 }
             }
             Step::EmptyAlt { idx } => {
